@@ -189,7 +189,8 @@ Definition is_none {A} (o : option A) : bool := match o with None => true | Some
 (* what the proofs need of the template and the style sheet (checked on the real files every run):
    after the style sheet is inserted the data placeholder occurs exactly once, directly inside
    "<script>…</script>", no earlier script looks like the data script, and the JS placeholder
-   occurs exactly once, after the data element. *)
+   occurs exactly once, after the data element (whose end tag does not start with a character
+   of that placeholder). *)
 Definition tpl_ok (tpl css : text) : bool :=
   match find_split DATA_PH (repl CSS_PH css tpl) with
   | None => false
@@ -199,6 +200,7 @@ Definition tpl_ok (tpl css : text) : bool :=
          | Some (MScript, [], found) => forallb (fun t => negb (is_data_script t)) found
          | _ => false
          end
+      && match Y with c0 :: _ => negb (memN c0 JS_PH) | [] => false end
       && match find_split JS_PH Y with
          | Some (Y1, Y2) => closes Y1 && is_none (find_split JS_PH Y2)
          | None => false
